@@ -57,7 +57,8 @@ def Err.name : Err → String
 inductive Fail where
   | err (e : Err)      -- the parser sets `ec`
   | skip               -- outside the modelled fragment: a tag (major type 6) at an item start (or a list element that is not a uint8_t)
-  | fuel               -- the fuel of the structural recursion ran out (never with `decode`'s fuel: Props.C07.model_fuel_suffices)
+  | fuel               -- the fuel of the structural recursion ran out (an artefact of the model: the driver prints `fuel`, which equals
+                       -- no real outcome, so the tie would flag it; with `decode`'s fuel 2·|input|+2 it is not observed; not proved)
   deriving DecidableEq, Repr
 
 inductive Res (α : Type) where
